@@ -2,6 +2,7 @@ package main
 
 import (
 	"fmt"
+	"go/constant"
 	"go/token"
 	"go/types"
 	"strings"
@@ -470,24 +471,35 @@ func init() {
 							}
 							binds = append(binds, accessPath(b))
 						}
-						lo, hi := false, false
+						// every way in which the predicate can answer true implies start <= ws and ws <= end
+						lo, hi := true, true
+						nTrue := 0
 						for _, r := range returnsOf(fn) {
 							for _, cs := range returnValueCases(r, 0) {
-								fs := canonFacts(cs.block, cs.extra...)
-								_ = fs
+								extra := cs.extra
+								if cv, ok := cs.val.(*ssa.Const); ok && cv.Value != nil && cv.Value.Kind() == constant.Bool {
+									if !constant.BoolVal(cv.Value) {
+										continue
+									}
+								} else if b, ok := cs.val.(*ssa.BinOp); ok && isComparison(b.Op) {
+									extra = append(append([]Fact{}, extra...), Fact{Cond: b, Truth: true})
+								} else {
+									lo, hi = false, false
+									continue
+								}
+								nTrue++
+								fs := canonFacts(cs.block, extra...)
+								if !fs["^{uint64#0} <= {uint64}"] {
+									lo = false
+								}
+								if !fs["{uint64} <= ^{uint64#1}"] {
+									hi = false
+								}
 							}
 						}
-						eachInstr(fn, func(ins ssa.Instruction) {
-							if b, ok := ins.(*ssa.BinOp); ok {
-								s := canonCond(b, true)
-								if s == "^{uint64#0} <= {uint64}" {
-									lo = true
-								}
-								if s == "{uint64} <= ^{uint64#1}" {
-									hi = true
-								}
-							}
-						})
+						if nTrue == 0 {
+							lo, hi = false, false
+						}
 						bs := strings.Join(binds, ",")
 						okPred = lo && hi && len(binds) == 2 && strings.HasSuffix(binds[0], "getBucketStartRange({uint64})#0") && strings.HasSuffix(binds[1], "getBucketStartRange({uint64})#1")
 						c.Check(okPred, fnKey(gsb)+" / window-predicate", ci.Pos(), "buckets selected by start <= ws <= end with (start,end)=getBucketStartRange(now): lo=%v hi=%v bindings=%s", lo, hi, bs)
@@ -585,13 +597,18 @@ var unsignedSubExceptions = map[string]string{
 // branch fact of the incoming edge.
 func splitPhiCases(v ssa.Value, blk *ssa.BasicBlock, extra []Fact, depth int) []retCase {
 	phi, ok := v.(*ssa.Phi)
-	if !ok || depth > 3 {
+	if !ok || depth > 5 {
 		return []retCase{{val: v, block: blk, extra: extra}}
 	}
 	var out []retCase
 	for i, e := range phi.Edges {
+		if e == v {
+			continue // loop-carried self reference
+		}
 		pred := phi.Block().Preds[i]
-		out = append(out, splitPhiCases(e, pred, edgeFact(pred, phi.Block()), depth+1)...)
+		// the facts of the path: those collected so far (outer phis) plus the branch taken into this phi's block
+		path := append(append([]Fact{}, extra...), edgeFact(pred, phi.Block())...)
+		out = append(out, splitPhiCases(e, pred, path, depth+1)...)
 	}
 	return out
 }
@@ -715,10 +732,14 @@ func init() {
 							found = true
 							for _, ft := range condFacts(x.Block()) {
 								if b, ok := ft.Cond.(*ssa.BinOp); ok && isComparison(b.Op) {
-									_, isPhi := b.X.(*ssa.Phi)
+									lhs := b.X
+									if inc, ok := lhs.(*ssa.BinOp); ok && inc.Op == token.ADD {
+										lhs = inc.X // range loops test index+1
+									}
+									_, isPhi := lhs.(*ssa.Phi)
 									_, isC := b.Y.(*ssa.Const)
 									if isPhi && isC {
-										constBound = true // the loop's own bound
+										constBound = true // the loop's own bound (constant: index loop to MetricEventTotal, or range over the array)
 										continue
 									}
 								}
